@@ -28,6 +28,9 @@ func init() { generators["microtasks"] = genMicroTasks }
 //     a write outside the functions of microtasks.go listed below (any atomic.Store*/Add*/Swap*/CompareAndSwap*,
 //     a plain assignment through the pointer, a re-pointing of the counter outside init/initNewModule) is an error,
 //   - that the hook lines of the stop protocol the C15 trace relies on are still in place.
+//   - what each of the four max-delay timers of get{Medium,Low}PriorityClearance is armed with, what the Run*/Signal*/
+//     Start* functions do with their maxDelay argument on its way there, and the flow of the function's error through
+//     runMicroTask and the Run* variants to the caller (mtTimersAndErrors below).
 //
 // It fails closed: any function of the package that touches the counters in a shape not listed here is an error.
 func genMicroTasks() {
@@ -438,8 +441,403 @@ func genMicroTasks() {
 		}
 	}
 
+	mtTimersAndErrors(fset, f, &sb, delays)
+
 	sb.WriteString("end PB.Gen.MicroTasks\n")
 	write("MicroTasks.lean", sb.String())
+}
+
+// mtTimersAndErrors regenerates
+//   - what each of the four timers of get{Medium,Low}PriorityClearance (enqueue phase, wait phase) is armed with:
+//     the function's own maxDelay parameter or a constant; that the parameter is not modified inside these functions;
+//   - what the Run*/Signal* functions hand to the clearance function (their own maxDelay, to the function of their own
+//     priority) and the effective max delay they compute from the argument (the default substitution) as a Lean function;
+//     that the Start* variants pass name, maxDelay and fn through to the Run* variant of their priority;
+//   - the flow of the function's error through runMicroTask to the caller of the blocking variants: `err = fn(m.Ctx)`
+//     is the last statement before the bare return, the deferred closure replaces err in its panic branch only,
+//     nothing else assigns err, and every Run* variant returns the result of m.runMicroTask(name, fn) directly.
+//
+// Unknown shapes (another timer API, an argument that is neither the parameter nor a constant, a second clearance
+// call) are errors; recognised deviations are written as facts the theorems are stated over.
+func mtTimersAndErrors(fset *token.FileSet, f *ast.File, sb *strings.Builder, delaysMs map[string]string) {
+	sb.WriteString("/-- what a max-delay timer is armed with: the function's `maxDelay` parameter, or a constant (nanoseconds) -/\ninductive Arm\n  | param\n  | const (ns : Int)\n  deriving DecidableEq, Repr\n\n")
+	constNs := func(name string) string {
+		ms, err := strconv.Atoi(delaysMs[name])
+		if err != nil {
+			die("default delay %s: %v", name, err)
+		}
+		return strconv.Itoa(ms) + "000000"
+	}
+	for _, e := range [][2]string{{"getMediumPriorityClearance", "Medium"}, {"getLowPriorityClearance", "Low"}} {
+		fn := findFunc(f, e[0], "")
+		if fn.Type.Params == nil || len(fn.Type.Params.List) != 1 || len(fn.Type.Params.List[0].Names) != 1 {
+			die("%s: expected exactly one parameter (maxDelay)", e[0])
+		}
+		param := fn.Type.Params.List[0].Names[0].Name
+		if !isSel(fn.Type.Params.List[0].Type, "time", "Duration") {
+			die("%s: parameter %s is not a time.Duration", e[0], param)
+		}
+		// the parameter must reach the timers as it was given
+		ast.Inspect(fn.Body, func(n ast.Node) bool {
+			switch x := n.(type) {
+			case *ast.AssignStmt:
+				for _, l := range x.Lhs {
+					if mtIsIdent(l, param) {
+						die("%s: %s is modified inside the function (the timers would not be armed with the caller's max delay)", e[0], param)
+					}
+				}
+			case *ast.IncDecStmt:
+				if mtIsIdent(x.X, param) {
+					die("%s: %s is modified inside the function", e[0], param)
+				}
+			case *ast.UnaryExpr:
+				if x.Op == token.AND && mtIsIdent(x.X, param) {
+					die("%s: address of %s taken", e[0], param)
+				}
+			}
+			return true
+		})
+		var selects []*ast.SelectStmt
+		for _, st := range fn.Body.List {
+			if s, ok := st.(*ast.SelectStmt); ok {
+				selects = append(selects, s)
+			}
+		}
+		if len(selects) != 2 {
+			die("%s: expected two top-level selects (enqueue, wait), found %d", e[0], len(selects))
+		}
+		timeCalls := 0
+		ast.Inspect(fn.Body, func(n ast.Node) bool {
+			if ce, ok := n.(*ast.CallExpr); ok {
+				if se, ok := ce.Fun.(*ast.SelectorExpr); ok && mtIsIdent(se.X, "time") {
+					timeCalls++
+				}
+			}
+			return true
+		})
+		if timeCalls != 2 {
+			die("%s: expected exactly two calls into package time (one time.After per phase), found %d", e[0], timeCalls)
+		}
+		for pi, phase := range []string{"Enqueue", "Wait"} {
+			var arms []ast.Expr
+			ast.Inspect(selects[pi], func(n ast.Node) bool {
+				cc, ok := n.(*ast.CommClause)
+				if !ok || cc.Comm == nil {
+					return true
+				}
+				es, ok := cc.Comm.(*ast.ExprStmt)
+				if !ok {
+					return true
+				}
+				ue, ok := es.X.(*ast.UnaryExpr)
+				if !ok || ue.Op != token.ARROW {
+					return true
+				}
+				if ce, ok := ue.X.(*ast.CallExpr); ok && isSel(ce.Fun, "time", "After") && len(ce.Args) == 1 {
+					arms = append(arms, ce.Args[0])
+				}
+				return true
+			})
+			if len(arms) != 1 {
+				die("%s: %s phase: expected exactly one `case <-time.After(…)`, found %d", e[0], strings.ToLower(phase), len(arms))
+			}
+			arm := ""
+			switch {
+			case mtIsIdent(arms[0], param):
+				arm = ".param"
+			case mtIsIdent(arms[0], "defaultMediumPriorityMaxDelay"), mtIsIdent(arms[0], "defaultLowPriorityMaxDelay"):
+				arm = ".const " + constNs(arms[0].(*ast.Ident).Name)
+			default:
+				// a literal duration like 3 * time.Second; anything that mentions the parameter or is not constant is unknown
+				mentions := false
+				ast.Inspect(arms[0], func(n ast.Node) bool {
+					if id, ok := n.(*ast.Ident); ok && id.Name == param {
+						mentions = true
+					}
+					return true
+				})
+				if mentions {
+					die("%s: %s phase: timer armed with an expression of %s this extractor does not know: %s", e[0], strings.ToLower(phase), param, exprString(fset, arms[0]))
+				}
+				ms, err := strconv.Atoi(durationMs(fset, arms[0]))
+				if err != nil {
+					die("%s: %s phase: timer argument %s", e[0], strings.ToLower(phase), exprString(fset, arms[0]))
+				}
+				arm = ".const " + strconv.Itoa(ms) + "000000"
+			}
+			fmt.Fprintf(sb, "/-- `%s`, %s phase: what `time.After` is armed with (source: `%s`) -/\ndef arm%s%s : Arm := %s\n",
+				e[0], strings.ToLower(phase), exprString(fset, arms[0]), phase, e[1], arm)
+		}
+	}
+	sb.WriteString("\n")
+
+	// --- the API functions: effective max delay and what they hand to the clearance function
+	passOK := true
+	for _, e := range [][4]string{{"RunMicroTask", "runMediumDelay", "getMediumPriorityClearance", "defaultMediumPriorityMaxDelay"},
+		{"RunLowPriorityMicroTask", "runLowDelay", "getLowPriorityClearance", "defaultLowPriorityMaxDelay"},
+		{"SignalMicroTask", "signalMediumDelay", "getMediumPriorityClearance", "defaultMediumPriorityMaxDelay"},
+		{"SignalLowPriorityMicroTask", "signalLowDelay", "getLowPriorityClearance", "defaultLowPriorityMaxDelay"}} {
+		fn := findFunc(f, e[0], "Module")
+		if fn == nil {
+			die("%s not found", e[0])
+		}
+		// the default substitution (shape checked above: `if maxDelay <= 0 { maxDelay = default…MaxDelay }`), and no other write
+		assigns, dflt := 0, ""
+		ast.Inspect(fn.Body, func(n ast.Node) bool {
+			switch x := n.(type) {
+			case *ast.AssignStmt:
+				for i, l := range x.Lhs {
+					if mtIsIdent(l, "maxDelay") {
+						assigns++
+						if len(x.Rhs) == len(x.Lhs) {
+							if id, ok := x.Rhs[i].(*ast.Ident); ok {
+								dflt = id.Name
+							}
+						}
+					}
+				}
+			case *ast.IncDecStmt:
+				if mtIsIdent(x.X, "maxDelay") {
+					die("%s: maxDelay is modified by %s", e[0], x.Tok)
+				}
+			case *ast.UnaryExpr:
+				if x.Op == token.AND && mtIsIdent(x.X, "maxDelay") {
+					die("%s: address of maxDelay taken", e[0])
+				}
+			}
+			return true
+		})
+		ifs := 0
+		ast.Inspect(fn.Body, func(n ast.Node) bool {
+			if is, ok := n.(*ast.IfStmt); ok {
+				if be, ok := is.Cond.(*ast.BinaryExpr); ok && mtIsIdent(be.X, "maxDelay") {
+					ifs++
+				}
+			}
+			return true
+		})
+		if assigns != ifs || assigns > 1 {
+			die("%s: maxDelay is assigned %d times, %d of them the recognised default substitution", e[0], assigns, ifs)
+		}
+		if assigns == 1 {
+			if dflt != "defaultMediumPriorityMaxDelay" && dflt != "defaultLowPriorityMaxDelay" {
+				die("%s: unrecognised default %q", e[0], dflt)
+			}
+			fmt.Fprintf(sb, "/-- `%s`: the max delay (ns) the clearance is asked with, for the argument `d` (default: `%s`) -/\ndef %s (d : Int) : Int := if d ≤ 0 then %s else d\n",
+				e[0], dflt, e[1], constNs(dflt))
+		} else {
+			fmt.Fprintf(sb, "/-- `%s`: the max delay (ns) the clearance is asked with, for the argument `d` (no default substitution in the source) -/\ndef %s (d : Int) : Int := d\n", e[0], e[1])
+		}
+		// exactly one clearance call, after the substitution, with the parameter itself, of the own priority
+		var calls []*ast.CallExpr
+		ast.Inspect(fn.Body, func(n ast.Node) bool {
+			if ce, ok := n.(*ast.CallExpr); ok {
+				if id, ok := ce.Fun.(*ast.Ident); ok && (id.Name == "getMediumPriorityClearance" || id.Name == "getLowPriorityClearance") {
+					calls = append(calls, ce)
+				}
+			}
+			return true
+		})
+		if len(calls) != 1 {
+			die("%s: expected exactly one clearance call, found %d", e[0], len(calls))
+		}
+		if !mtIsIdent(calls[0].Fun, e[2]) || len(calls[0].Args) != 1 || !mtIsIdent(calls[0].Args[0], "maxDelay") {
+			passOK = false
+		}
+		// the clearance call must be a top-level statement that follows the substitution
+		callIdx, ifIdx := -1, -1
+		for i, st := range fn.Body.List {
+			if es, ok := st.(*ast.ExprStmt); ok && es.X == ast.Expr(calls[0]) {
+				callIdx = i
+			}
+			if is, ok := st.(*ast.IfStmt); ok {
+				if be, ok := is.Cond.(*ast.BinaryExpr); ok && mtIsIdent(be.X, "maxDelay") {
+					ifIdx = i
+				}
+			}
+		}
+		if callIdx < 0 || (assigns == 1 && (ifIdx < 0 || ifIdx > callIdx)) {
+			passOK = false
+		}
+	}
+	fmt.Fprintf(sb, "/-- every Run*/Signal* function calls the clearance function of its own priority exactly once, unconditionally, after the default substitution, with its `maxDelay` variable as the argument -/\ndef clearanceCallsPassMaxDelay : Bool := %v\n", passOK)
+
+	startOK := true
+	for _, e := range [][3]string{{"StartMicroTask", "RunMicroTask", "3"}, {"StartLowPriorityMicroTask", "RunLowPriorityMicroTask", "3"},
+		{"StartHighPriorityMicroTask", "RunHighPriorityMicroTask", "2"}} {
+		fn := findFunc(f, e[0], "Module")
+		if fn == nil {
+			die("%s not found", e[0])
+		}
+		var calls []*ast.CallExpr
+		ast.Inspect(fn.Body, func(n ast.Node) bool {
+			if ce, ok := n.(*ast.CallExpr); ok {
+				if se, ok := ce.Fun.(*ast.SelectorExpr); ok && (strings.HasPrefix(se.Sel.Name, "Run") || strings.HasPrefix(se.Sel.Name, "Signal") || se.Sel.Name == "runMicroTask") {
+					calls = append(calls, ce)
+				}
+			}
+			return true
+		})
+		if len(calls) != 1 {
+			die("%s: expected exactly one call of a Run* variant, found %d", e[0], len(calls))
+		}
+		want := []string{"name", "maxDelay", "fn"}
+		if e[2] == "2" {
+			want = []string{"name", "fn"}
+		}
+		ok := isSel(calls[0].Fun, "m", e[1]) && len(calls[0].Args) == len(want)
+		for i := 0; ok && i < len(want); i++ {
+			ok = mtIsIdent(calls[0].Args[i], want[i])
+		}
+		ast.Inspect(fn.Body, func(n ast.Node) bool { // the arguments must arrive unmodified
+			if as, isAs := n.(*ast.AssignStmt); isAs {
+				for _, l := range as.Lhs {
+					if mtIsIdent(l, "maxDelay") || mtIsIdent(l, "fn") || mtIsIdent(l, "name") {
+						ok = false
+					}
+				}
+			}
+			return true
+		})
+		if !ok {
+			startOK = false
+		}
+	}
+	fmt.Fprintf(sb, "/-- every Start* variant calls the Run* variant of its priority once, with its own `name`, `maxDelay`, `fn` unmodified -/\ndef startVariantsPassThrough : Bool := %v\n\n", startOK)
+
+	// --- runMicroTask: the function's error on its way to the caller
+	rm := findFunc(f, "runMicroTask", "Module")
+	if rm == nil || rm.Type.Results == nil || len(rm.Type.Results.List) != 1 || len(rm.Type.Results.List[0].Names) != 1 {
+		die("runMicroTask: expected one named result")
+	}
+	res := rm.Type.Results.List[0].Names[0].Name
+	fnParam := ""
+	for _, p := range rm.Type.Params.List {
+		if _, ok := p.Type.(*ast.FuncType); ok && len(p.Names) == 1 {
+			fnParam = p.Names[0].Name
+		}
+	}
+	if fnParam == "" {
+		die("runMicroTask: function parameter not found")
+	}
+	// (1) the last two statements: `err = fn(m.Ctx)` and a bare `return`
+	bodyOK := false
+	if n := len(rm.Body.List); n >= 2 {
+		as, ok1 := rm.Body.List[n-2].(*ast.AssignStmt)
+		rs, ok2 := rm.Body.List[n-1].(*ast.ReturnStmt)
+		if ok1 && ok2 && len(rs.Results) == 0 && as.Tok == token.ASSIGN && len(as.Lhs) == 1 && len(as.Rhs) == 1 && mtIsIdent(as.Lhs[0], res) {
+			if ce, ok := as.Rhs[0].(*ast.CallExpr); ok && mtIsIdent(ce.Fun, fnParam) && len(ce.Args) == 1 && isSel(ce.Args[0], "m", "Ctx") {
+				bodyOK = true
+			}
+		}
+	}
+	// (2) every write to the result, every return, every call of fn in the whole function (closures included)
+	writes, panicWrites, returns, fnCalls, defers := 0, 0, 0, 0, 0
+	var inPanicIf func(n ast.Node, inside bool)
+	inPanicIf = func(n ast.Node, inside bool) {
+		ast.Inspect(n, func(x ast.Node) bool {
+			switch y := x.(type) {
+			case *ast.IfStmt:
+				if be, ok := y.Cond.(*ast.BinaryExpr); ok && be.Op == token.NEQ && mtIsIdent(be.X, "panicVal") && mtIsIdent(be.Y, "nil") && y.Init == nil && !inside {
+					inPanicIf(y.Body, true)
+					if y.Else != nil {
+						inPanicIf(y.Else, false)
+					}
+					return false
+				}
+			case *ast.AssignStmt:
+				for i, l := range y.Lhs {
+					if mtIsIdent(l, res) {
+						writes++
+						if inside && len(y.Rhs) == len(y.Lhs) && mtIsIdent(y.Rhs[i], "me") {
+							panicWrites++
+						}
+					}
+					if mtIsIdent(l, fnParam) {
+						die("runMicroTask: %s is re-assigned", fnParam)
+					}
+				}
+			case *ast.UnaryExpr:
+				if y.Op == token.AND && mtIsIdent(y.X, res) {
+					die("runMicroTask: address of the result %s taken", res)
+				}
+			case *ast.ReturnStmt:
+				returns++
+			case *ast.CallExpr:
+				if mtIsIdent(y.Fun, fnParam) {
+					fnCalls++
+				}
+				for _, a := range y.Args { // fn handed to something else could be run a second time / its error lost
+					if mtIsIdent(a, fnParam) {
+						die("runMicroTask: %s is passed on to %s", fnParam, exprString(fset, y.Fun))
+					}
+				}
+			case *ast.DeferStmt:
+				defers++
+			case *ast.GoStmt:
+				die("runMicroTask: starts a goroutine")
+			}
+			return true
+		})
+	}
+	inPanicIf(rm.Body, false)
+	// `panicVal := recover()` must be what the panic branch tests
+	recovers := 0
+	ast.Inspect(rm.Body, func(n ast.Node) bool {
+		if as, ok := n.(*ast.AssignStmt); ok && len(as.Lhs) == 1 && len(as.Rhs) == 1 && mtIsIdent(as.Lhs[0], "panicVal") {
+			if ce, ok := as.Rhs[0].(*ast.CallExpr); ok && mtIsIdent(ce.Fun, "recover") {
+				recovers++
+			} else {
+				die("runMicroTask: panicVal is not the result of recover()")
+			}
+		}
+		return true
+	})
+	errFlowOK := bodyOK && writes == 2 && panicWrites == 1 && returns == 1 && fnCalls == 1 && defers == 1 && recovers == 1
+	fmt.Fprintf(sb, "/-- `runMicroTask`: `%s = %s(m.Ctx)` is the last statement before the bare return; besides it only the panic branch of the deferred closure assigns the result (writes: %d, in the panic branch: %d, returns: %d, calls of the function: %d) -/\ndef runReturnsFnError : Bool := %v\n",
+		res, fnParam, writes, panicWrites, returns, fnCalls, errFlowOK)
+
+	directOK := true
+	for _, name := range []string{"RunMicroTask", "RunLowPriorityMicroTask", "RunHighPriorityMicroTask"} {
+		fn := findFunc(f, name, "Module")
+		if fn == nil {
+			die("%s not found", name)
+		}
+		var rets []*ast.ReturnStmt
+		ast.Inspect(fn.Body, func(n ast.Node) bool {
+			switch x := n.(type) {
+			case *ast.ReturnStmt:
+				rets = append(rets, x)
+			case *ast.FuncLit:
+				die("%s: contains a function literal (the function handed to runMicroTask may be wrapped)", name)
+			case *ast.AssignStmt:
+				for _, l := range x.Lhs {
+					if mtIsIdent(l, "fn") {
+						die("%s: fn is re-assigned", name)
+					}
+				}
+			}
+			return true
+		})
+		ok := len(rets) == 2 && len(rets[0].Results) == 1 && mtIsIdent(rets[0].Results[0], "errNoModule") && len(rets[1].Results) == 1
+		if ok {
+			ce, isCall := rets[1].Results[0].(*ast.CallExpr)
+			ok = isCall && isSel(ce.Fun, "m", "runMicroTask") && len(ce.Args) == 2 && mtIsIdent(ce.Args[0], "name") && mtIsIdent(ce.Args[1], "fn")
+			// … and it is the last statement of the function, the errNoModule return sits in `if m == nil`
+			ok = ok && fn.Body.List[len(fn.Body.List)-1] == ast.Stmt(rets[1])
+			if is, isIf := fn.Body.List[0].(*ast.IfStmt); isIf && ok {
+				be, isBe := is.Cond.(*ast.BinaryExpr)
+				ok = isBe && be.Op == token.EQL && mtIsIdent(be.X, "m") && mtIsIdent(be.Y, "nil") && len(is.Body.List) >= 1 &&
+					is.Body.List[len(is.Body.List)-1] == ast.Stmt(rets[0])
+			} else {
+				ok = false
+			}
+		}
+		if !ok {
+			directOK = false
+		}
+	}
+	fmt.Fprintf(sb, "/-- every blocking Run* variant ends with `return m.runMicroTask(name, fn)` (its only other return: `errNoModule` for a nil module) -/\ndef runVariantsReturnDirect : Bool := %v\n\n", directOK)
 }
 
 // isCounter says whether e denotes one of the two counters: "global" for the package variable microTasks,
